@@ -31,7 +31,7 @@ INITIATOR_NAMES = ["naa.62004567BA64678D0123456789ABCDEF", "naa.52004567BA64678D
 
 
 def shards(tier, seed):
-    out = [{"id": n, "sgio": s, "iscsi": i, "n": 30 if tier == "quick" else 2500, "version": VERSIONS[(seed + k) % len(VERSIONS)]} for k, (n, s, i) in enumerate(CONFIGS)]
+    out = [{"id": n, "sgio": s, "iscsi": i, "n": 30 if tier == "quick" else 2500, "version": VERSIONS[(seed + k) % len(VERSIONS)], "fresh_imports": n == "none"} for k, (n, s, i) in enumerate(CONFIGS)]
     # the library as it is installed: built from the tree (setup.py build, what a wheel would contain), not the source directory
     out += [{"id": "built-" + n, "sgio": s, "iscsi": i, "n": 10 if tier == "quick" else 100, "version": VERSIONS[(seed + 3 + k) % len(VERSIONS)], "built": True}
             for k, (n, s, i) in enumerate(CONFIGS) if n in ("none", "both")]
@@ -225,6 +225,35 @@ def run(shard, ctx):
                 raise AttributeError("another object")
         except AttributeError as e:
             ctx.fail("C19:%s.import_spelling_fails" % cfg, "attribute access %s from the top package: %s" % (name, e), {"configuration": cfg, "module": name, "statement": "attribute access"}, exc=e)
+    if shard.get("fresh_imports"):
+        # ... and each module as the *first* thing a fresh interpreter imports after `import pyscsi` (no other import has run that
+        # could have repaired anything), in both spellings
+        import concurrent.futures
+        import subprocess
+
+        from vmon import repo as _repo
+
+        top = os.path.dirname(os.path.dirname(os.path.realpath(pyscsi.__file__)))
+
+        def fresh(modname):
+            parent, _dot, leaf = modname.rpartition(".")
+            out = []
+            for stmt in ("import %s as m" % modname, "from %s import %s as m" % (parent, leaf)):
+                code = "import sys; sys.path.insert(0, %r); import pyscsi; %s; assert m is sys.modules[%r]" % (top, stmt, modname)
+                p = subprocess.run([sys.executable, "-B", "-S", "-c", code], stdout=subprocess.PIPE, stderr=subprocess.PIPE, timeout=120,
+                                   env=dict(os.environ, PYTHONPATH=os.pathsep.join(x for x in sys.path if x and "site-packages" in x)))
+                out.append((stmt, p.returncode, p.stderr.decode(errors="replace")[-300:]))
+            return modname, out
+
+        with concurrent.futures.ThreadPoolExecutor(8) as ex:
+            for modname, res in ex.map(fresh, [m for m in mods if m.count(".") >= 1]):
+                for stmt, rc, err in res:
+                    ctx.case((cfg, "fresh-import", stmt), True)
+                    ctx.count("fresh_interpreter_imports")
+                    if rc != 0:
+                        ctx.fail("C19:%s.import_spelling_fails" % cfg, "in a fresh interpreter, after `import pyscsi`: `%s` fails: %s" % (stmt, err.strip().splitlines()[-1] if err.strip() else rc),
+                                 {"configuration": cfg, "module": modname, "statement": stmt})
+                        break
     try:
         import pyscsi.pyiscsi.iscsi_device as idm
         import pyscsi.pyscsi.scsi_device as sdm
